@@ -1,0 +1,12 @@
+//go:build verif
+
+// Machine-checked contracts for package l4tee (comment-only; read by /verif/gvc).
+
+package l4tee
+
+// The connection handed to the next handler must satisfy the handler interface's precondition
+// (C01): a well-formed layer4 connection whose buffer, if any, holds bytes of its own inner conn.
+// (The branch runs in a goroutine, which the verifier does not follow.)
+//@ func (t *Handler) Handle(cx *layer4.Connection, next layer4.Handler) (err error)
+//@ requires wfcx(cx) && wf(cx) && !cx.matching && t != nil && !isnil(next) && !isnil(t.compiledChain) && t.logger != nil
+//@ safety C01 C04
